@@ -59,8 +59,26 @@ type CB struct {
 	Console bool // produces a console event when complete
 	Build   func(r *simrt.Rand, s *Sent) []byte
 	// Cut points: byte offsets at which each field ends (filled by Build via the marks slice)
-	Effect string // "", "session", "died", "loot"
-	Repeats bool  // body ends with a variable-length list: a cut only shortens the list
+	Effect  string // "", "session", "died", "loot"
+	Repeats bool   // body ends with a variable-length list: a cut only shortens the list
+	// Fields (optional) is Build plus the offsets of the length prefixes of the body's top-level
+	// byte-string fields, for field-aware corruption (see EmptyField).
+	Fields func(r *simrt.Rand, s *Sent) (body []byte, prefixes []int)
+}
+
+// EmptyField returns body with the length-prefixed field whose prefix is at offset off made
+// empty: prefix 0, content removed, everything behind it unchanged.
+func EmptyField(body []byte, off int) []byte {
+	if off < 0 || off+4 > len(body) {
+		return body
+	}
+	n := int(uint32(body[off])<<24 | uint32(body[off+1])<<16 | uint32(body[off+2])<<8 | uint32(body[off+3]))
+	if n > len(body)-off-4 {
+		n = len(body) - off - 4
+	}
+	out := append([]byte(nil), body[:off]...)
+	out = append(out, 0, 0, 0, 0)
+	return append(out, body[off+4+n:]...)
 }
 
 var Callbacks = []CB{
@@ -183,6 +201,587 @@ var Callbacks = []CB{
 	{Name: "kill-date", Cmd: CmdKillDate, Final: true, Console: true, Effect: "died", Build: func(r *simrt.Rand, s *Sent) []byte {
 		return nil
 	}},
+}
+
+// ---- the rest of the callback kinds TaskDispatch understands -------------------------------
+//
+// Written from payloads/Demon/src/core/{Command,Download,Socket,Jobs,Memory,Win32,Dotnet,
+// CoffeeLdr,ObjectApi,Package}.c; where the Demon never sends a kind the teamserver decodes
+// (rportfwd clear, DEMON_INFO_MEM_EXEC, DOTNET_INFO_FINISHED, BOF file callbacks) the body is
+// laid out the way TaskDispatch reads it. A sentinel is registered only for a value the console
+// shows verbatim (text) or in decimal / hexadecimal (integers).
+
+func init() { Callbacks = append(Callbacks, extCallbacks()...) }
+
+// wname: like wstr but never contains a backslash (for text that is shown inside JSON).
+func (s *Sent) wname(r *simrt.Rand, prefix string) string {
+	base := fmt.Sprintf("%s_%x", prefix, r.Uint64()&0xffffffffff)
+	switch r.Intn(7) {
+	case 0:
+		base += "ü"
+	case 1:
+		base += "_путь"
+	case 2:
+		base += "_x"
+	case 3:
+		base += "€1"
+	case 4:
+		base += "😀z"
+	}
+	s.Strs = append(s.Strs, base)
+	return base
+}
+
+// ptr: a user-space pointer, shown in hexadecimal.
+func (s *Sent) ptr(r *simrt.Rand) uint64 {
+	v := 0x7ff000000000 + uint64(r.Intn(1<<30))
+	s.Ints = append(s.Ints, v)
+	return v
+}
+
+// nz: like num but never 0 (for values the console leaves blank when 0)
+func (s *Sent) nz(r *simrt.Rand) uint32 {
+	v := []uint32{1, 4242, 0x7fffffff, 0x80000000, 0xffffffff, uint32(10000 + r.Intn(50000)), uint32(r.Uint64()) | 1}[r.Intn(7)]
+	s.Ints = append(s.Ints, uint64(v))
+	return v
+}
+
+// values the console does not show: same shapes, no sentinel
+func plainW(r *simrt.Rand, prefix string) string { var x Sent; return x.wstr(r, prefix) }
+func plainS(r *simrt.Rand, prefix string) string { var x Sent; return x.str(r, prefix) }
+func plainNum(r *simrt.Rand) uint32              { var x Sent; return x.num(r) }
+func plainSmall(r *simrt.Rand) uint32            { var x Sent; return x.small(r) }
+func plainPtr(r *simrt.Rand) uint64              { var x Sent; return x.ptr(r) }
+func rnd32(r *simrt.Rand) uint32                 { return uint32(r.Uint64()) | 0x100 } // ids the agent draws at random
+func pick(r *simrt.Rand, v ...uint32) uint32     { return v[r.Intn(len(v))] }
+
+func mk(name string, cmd uint32, final bool, build func(r *simrt.Rand, s *Sent, p *PB)) CB {
+	return CB{Name: name, Cmd: cmd, Final: final, Console: true,
+		Build: func(r *simrt.Rand, s *Sent) []byte {
+			var p PB
+			build(r, s, &p)
+			return p.B
+		},
+		Fields: func(r *simrt.Rand, s *Sent) ([]byte, []int) {
+			var p PB
+			build(r, s, &p)
+			return p.B, p.Marks
+		}}
+}
+func (c CB) eff(e string) CB { c.Effect = e; return c }
+func (c CB) list() CB        { c.Repeats = true; return c }
+func (c CB) silent() CB      { c.Console = false; return c }
+
+// sub-command and key numbers (payloads/Demon/include/core/Command.h)
+const (
+	fsDir, fsDownload                                                                      = 1, 2
+	procModules, procGrep, procCreate, procMemory                                          = 2, 3, 4, 6
+	jobSuspend, jobResume, jobKill, jobDied                                                = 2, 3, 4, 5
+	tokImpersonate, tokSteal, tokList, tokPrivs, tokMake                                   = 1, 2, 3, 4, 5
+	tokGetUID, tokRevert, tokRemove, tokClear, tokFind                                     = 6, 7, 8, 9, 10
+	cfgSpfThreadStart, cfgVerbose, cfgSleepTechnique, cfgCoffeeThreaded, cfgCoffeeVeh      = 3, 4, 5, 6, 7
+	cfgMemAlloc, cfgMemExecute                                                             = 101, 102
+	cfgInjTechnique, cfgInjSpoofAddr, cfgSpawn64, cfgSpawn32, cfgKillDate, cfgWorkingHours = 150, 151, 152, 153, 154, 155
+	netDomain, netLogons, netSessions, netComputer, netDCList                              = 1, 2, 3, 4, 5
+	netShare, netLocalGroup, netGroup, netUsers                                            = 6, 7, 8, 9
+	xferList, xferStop, xferResume, xferRemove                                             = 0, 1, 2, 3
+	krbLuid, krbKlist, krbPurge, krbPtt                                                    = 0, 1, 2, 3
+	bofException, bofSymbolNotFound, bofRanOK, bofCouldNotRun                              = 1, 2, 3, 4
+	dotnetPatched, dotnetNetVersion, dotnetEntrypoint, dotnetFinished, dotnetFailed        = 1, 2, 3, 4, 5
+	infoMemExec, infoMemProtect, infoProcCreate                                            = 11, 12, 21
+	cbOutput, cbFile, cbFileWrite, cbFileClose, cbError, cbOutputOEM, cbOutputUTF8         = 0x00, 0x02, 0x08, 0x09, 0x0d, 0x1e, 0x20
+	errToken                                                                               = 3
+)
+
+// TinyBMP is a valid 1x1 24-bit BMP (what WinScreenshot would produce for one pixel).
+func TinyBMP(b, g, r byte) []byte {
+	le32 := func(v uint32) []byte { return []byte{byte(v), byte(v >> 8), byte(v >> 16), byte(v >> 24)} }
+	le16 := func(v uint16) []byte { return []byte{byte(v), byte(v >> 8)} }
+	var o []byte
+	o = append(o, 'B', 'M')
+	o = append(o, le32(58)...) // file size
+	o = append(o, le32(0)...)  // reserved
+	o = append(o, le32(54)...) // pixel data offset
+	o = append(o, le32(40)...) // BITMAPINFOHEADER
+	o = append(o, le32(1)...)  // width
+	o = append(o, le32(1)...)  // height
+	o = append(o, le16(1)...)  // planes
+	o = append(o, le16(24)...) // bits per pixel
+	o = append(o, le32(0)...)  // BI_RGB
+	o = append(o, le32(4)...)  // image size
+	o = append(o, le32(2835)...)
+	o = append(o, le32(2835)...)
+	o = append(o, le32(0)...)
+	o = append(o, le32(0)...)
+	o = append(o, b, g, r, 0) // one pixel, row padded to 4 bytes
+	return o
+}
+
+// fsDirBody: CommandFS / DEMON_COMMAND_FS_DIR answer for 0..3 directories with 0..3 items each.
+func fsDirBody(explorer, listOnly bool) func(r *simrt.Rand, s *Sent, p *PB) {
+	return func(r *simrt.Rand, s *Sent, p *PB) {
+		p.Int32(fsDir).Bool(explorer).Bool(listOnly)
+		p.WStr(plainW(r, "C:\\start") + "\\*") // the start path is shown on failure only
+		p.Bool(true)
+		nd := r.Intn(4)
+		for d := 0; d < nd; d++ {
+			ni := r.Intn(4)
+			if listOnly && ni == 0 {
+				continue // the Demon leaves empty directories out of a list-only answer
+			}
+			// the directory is named in the listing when it has items; the explorer gets it base64 in JSON
+			var path string
+			if explorer || ni == 0 {
+				path = plainW(r, "C:\\dir")
+			} else {
+				path = s.wstr(r, "C:\\dir")
+			}
+			nfiles := r.Intn(ni + 1)
+			p.WStr(path + "\\*").Int32(uint32(nfiles)).Int32(uint32(ni - nfiles))
+			if !listOnly {
+				p.Int64(uint64(r.Intn(1 << 40)))
+			}
+			for i := 0; i < ni; i++ {
+				if explorer {
+					p.WStr(s.wname(r, "item"))
+				} else {
+					p.WStr(s.wstr(r, "item"))
+				}
+				if !listOnly {
+					p.Bool(i >= nfiles).Int64(uint64(r.Intn(1 << 36)))
+					p.Int32(uint32(1 + r.Intn(28))).Int32(uint32(1 + r.Intn(12))).Int32(s.small(r)) // day month year
+					p.Int32(uint32(r.Intn(60))).Int32(uint32(r.Intn(24)))                           // minute hour
+				}
+			}
+		}
+	}
+}
+
+func ipv4(r *simrt.Rand) uint32 { return uint32(r.Uint64()) }
+
+func fileTime(r *simrt.Rand) (lo, hi uint32) {
+	return uint32(r.Uint64()), 0x01DA0000 + uint32(r.Intn(0x8000))
+}
+
+func extCallbacks() []CB {
+	var l []CB
+	add := func(c ...CB) { l = append(l, c...) }
+
+	// ---- COMMAND_FS: dir, download ------------------------------------------------------
+	add(
+		mk("fs-dir", CmdFS, true, fsDirBody(false, false)).list(),
+		mk("fs-dir-list-only", CmdFS, true, fsDirBody(false, true)).list(),
+		mk("fs-dir-explorer", CmdFS, true, fsDirBody(true, false)).list(),
+		mk("fs-dir-fail", CmdFS, true, func(r *simrt.Rand, s *Sent, p *PB) {
+			p.Int32(fsDir).Bool(r.Intn(2) == 0).Bool(r.Intn(2) == 0).WStr(s.wstr(r, "C:\\nodir") + "\\*").Bool(false)
+		}),
+		// Download.c / CommandFS: [mode][file id] then open: size, name; write: chunk; close: reason
+		mk("fs-download-open", CmdFS, false, func(r *simrt.Rand, s *Sent, p *PB) {
+			p.Int32(fsDownload).Int32(0).Int32(rnd32(r)).Int64(uint64(r.Intn(1 << 30))).WStr(s.wstr(r, "C:\\loot\\dl"))
+		}).eff("loot"),
+		mk("fs-download-write", CmdFS, false, func(r *simrt.Rand, s *Sent, p *PB) {
+			p.Int32(fsDownload).Int32(1).Int32(rnd32(r)).Str(plainS(r, "chunk"))
+		}).eff("loot"),
+		mk("fs-download-close", CmdFS, true, func(r *simrt.Rand, s *Sent, p *PB) {
+			p.Int32(fsDownload).Int32(2).Int32(rnd32(r)).Int32(uint32(r.Intn(2)))
+		}).eff("loot"),
+	)
+
+	// ---- COMMAND_PROC ---------------------------------------------------------------------
+	add(
+		mk("proc-modules", CmdProc, true, func(r *simrt.Rand, s *Sent, p *PB) {
+			p.Int32(procModules).Int32(s.small(r))
+			for i, n := 0, r.Intn(4); i < n; i++ {
+				p.Str(s.str(r, "C:\\Windows\\System32\\mod")).Int64(s.ptr(r))
+			}
+		}).list(),
+		mk("proc-grep", CmdProc, true, func(r *simrt.Rand, s *Sent, p *PB) {
+			p.Int32(procGrep)
+			for i, n := 0, r.Intn(4); i < n; i++ {
+				p.WStr(s.wstr(r, "grep")).Int32(s.small(r)).Int32(s.small(r)).WStr(s.wstr(r, "CORP\\owner")).Int32(pick(r, 64, 86))
+			}
+		}).list(),
+		// not piped: this answer is the last one
+		mk("proc-create", CmdProc, true, func(r *simrt.Rand, s *Sent, p *PB) {
+			p.Int32(procCreate)
+			switch r.Intn(3) {
+			case 0: // started, verbose
+				p.WStr(s.wstr(r, "C:\\Windows\\run")).Int32(s.small(r)).Int32(1).Int32(0).Int32(1)
+			case 1: // failed, verbose: the Demon reports pid 0
+				p.WStr(s.wstr(r, "C:\\Windows\\run")).Int32(0).Int32(0).Int32(uint32(r.Intn(2))).Int32(1)
+			default: // not verbose: nothing is shown
+				p.WStr(plainW(r, "C:\\Windows\\run")).Int32(plainSmall(r)).Int32(uint32(r.Intn(2))).Int32(0).Int32(0)
+			}
+		}),
+		// piped and started: output and JOB_DIED follow under the same request id
+		mk("proc-create-piped", CmdProc, false, func(r *simrt.Rand, s *Sent, p *PB) {
+			p.Int32(procCreate).WStr(s.wstr(r, "C:\\Windows\\piped")).Int32(s.small(r)).Int32(1).Int32(1).Int32(1)
+		}),
+		mk("proc-memory", CmdProc, true, func(r *simrt.Rand, s *Sent, p *PB) {
+			p.Int32(procMemory).Int32(plainSmall(r)).Int32(pick(r, 0, 0x04, 0x20, 0x40))
+			for i, n := 0, r.Intn(4); i < n; i++ {
+				p.Int64(s.ptr(r)).Int32(plainNum(r)).Int32(pick(r, 0x01, 0x02, 0x04, 0x10, 0x20, 0x40, 0x999)).Int32(s.small(r)).Int32(s.small(r))
+			}
+		}).list(),
+	)
+
+	// ---- COMMAND_JOB ----------------------------------------------------------------------
+	for _, j := range []struct {
+		n   string
+		sub uint32
+	}{{"job-suspend", jobSuspend}, {"job-resume", jobResume}, {"job-kill", jobKill}} {
+		sub := j.sub
+		add(mk(j.n, CmdJob, true, func(r *simrt.Rand, s *Sent, p *PB) {
+			p.Int32(sub).Int32(s.small(r)).Int32(uint32(r.Intn(2)))
+		}))
+	}
+	add(mk("job-died", CmdJob, true, func(r *simrt.Rand, s *Sent, p *PB) { p.Int32(jobDied) }))
+
+	// ---- COMMAND_TOKEN --------------------------------------------------------------------
+	add(
+		mk("token-impersonate", CmdToken, true, func(r *simrt.Rand, s *Sent, p *PB) {
+			ok := uint32(r.Intn(2))
+			p.Int32(tokImpersonate).Int32(ok)
+			if ok == 0 && r.Intn(2) == 0 {
+				p.Int32(0) // token not in the vault: FALSE and an empty name
+			} else {
+				p.Str(s.str(r, "CORP\\imp"))
+			}
+		}),
+		mk("token-steal", CmdToken, true, func(r *simrt.Rand, s *Sent, p *PB) {
+			p.Int32(tokSteal).WStr(s.wstr(r, "CORP\\stolen")).Int32(s.small(r)).Int32(s.small(r))
+		}),
+		mk("token-list", CmdToken, true, func(r *simrt.Rand, s *Sent, p *PB) {
+			p.Int32(tokList)
+			for i, n := 0, r.Intn(4); i < n; i++ {
+				p.Int32(uint32(i)).Int32(s.num(r)).WStr(s.wstr(r, "CORP\\vault")).Int32(s.small(r)).Int32(uint32(1 + r.Intn(3))).Int32(uint32(r.Intn(2)))
+			}
+		}).list(),
+		mk("token-privs-list", CmdToken, true, func(r *simrt.Rand, s *Sent, p *PB) {
+			p.Int32(tokPrivs).Int32(1)
+			for i, n := 0, r.Intn(4); i < n; i++ {
+				p.Str(s.str(r, "SePrivilege")).Int32(pick(r, 0, 2, 3))
+			}
+		}).list(),
+		mk("token-privs-get", CmdToken, true, func(r *simrt.Rand, s *Sent, p *PB) {
+			p.Int32(tokPrivs).Int32(0).Int32(uint32(r.Intn(2))).Str(s.str(r, "SePrivilege"))
+		}),
+		mk("token-make", CmdToken, true, func(r *simrt.Rand, s *Sent, p *PB) {
+			p.Int32(tokMake).WStr(s.wstr(r, "CORP\\made"))
+		}),
+		mk("token-make-fail", CmdToken, true, func(r *simrt.Rand, s *Sent, p *PB) { p.Int32(tokMake) }),
+		mk("token-getuid", CmdToken, true, func(r *simrt.Rand, s *Sent, p *PB) {
+			p.Int32(tokGetUID).Int32(uint32(r.Intn(2))).WStr(s.wstr(r, "CORP\\uid"))
+		}),
+		mk("token-revert", CmdToken, true, func(r *simrt.Rand, s *Sent, p *PB) {
+			p.Int32(tokRevert).Int32(uint32(r.Intn(2)))
+		}),
+		mk("token-remove", CmdToken, true, func(r *simrt.Rand, s *Sent, p *PB) {
+			p.Int32(tokRemove).Int32(uint32(r.Intn(2))).Int32(s.small(r))
+		}),
+		mk("token-clear", CmdToken, true, func(r *simrt.Rand, s *Sent, p *PB) { p.Int32(tokClear) }),
+		mk("token-find", CmdToken, true, func(r *simrt.Rand, s *Sent, p *PB) {
+			n := r.Intn(4)
+			p.Int32(tokFind).Int32(1).Int32(uint32(n))
+			for i := 0; i < n; i++ {
+				p.WStr(s.wstr(r, "CORP\\found")).Int32(s.small(r)).Int32(s.nz(r))
+				p.Int32(pick(r, 0x1000, 0x2000, 0x3000, 0x4000)).Int32(uint32(r.Intn(4))).Int32(uint32(1 + r.Intn(2)))
+			}
+		}).list(),
+		// ListTokens failed: [FALSE] is the whole (and last) answer
+		mk("token-find-fail", CmdToken, true, func(r *simrt.Rand, s *Sent, p *PB) { p.Int32(tokFind).Int32(0) }),
+	)
+
+	// ---- COMMAND_CONFIG -------------------------------------------------------------------
+	cfgInt := func(name string, key uint32) CB {
+		return mk(name, CmdConfig, true, func(r *simrt.Rand, s *Sent, p *PB) { p.Int32(key).Int32(s.small(r)) })
+	}
+	cfgBool := func(name string, key uint32) CB {
+		return mk(name, CmdConfig, true, func(r *simrt.Rand, s *Sent, p *PB) { p.Int32(key).Int32(uint32(r.Intn(2))) })
+	}
+	cfgW := func(name string, key uint32) CB {
+		return mk(name, CmdConfig, true, func(r *simrt.Rand, s *Sent, p *PB) { p.Int32(key).WStr(s.wstr(r, "C:\\Windows\\spawn")) })
+	}
+	cfgLibFunc := func(name string, key uint32) CB {
+		return mk(name, CmdConfig, true, func(r *simrt.Rand, s *Sent, p *PB) { p.Int32(key).Str(s.str(r, "lib")).Str(s.str(r, "Func")) })
+	}
+	add(
+		cfgInt("config-memory-alloc", cfgMemAlloc),
+		cfgInt("config-memory-execute", cfgMemExecute),
+		cfgInt("config-inject-technique", cfgInjTechnique),
+		cfgInt("config-sleep-technique", cfgSleepTechnique),
+		cfgBool("config-verbose", cfgVerbose),
+		cfgBool("config-coffee-veh", cfgCoffeeVeh),
+		cfgBool("config-coffee-threaded", cfgCoffeeThreaded),
+		cfgW("config-spawn64", cfgSpawn64),
+		cfgW("config-spawn32", cfgSpawn32),
+		cfgLibFunc("config-spf-thread-start", cfgSpfThreadStart),
+		cfgLibFunc("config-inject-spoofaddr", cfgInjSpoofAddr),
+		mk("config-killdate", CmdConfig, true, func(r *simrt.Rand, s *Sent, p *PB) {
+			p.Int32(cfgKillDate).Int64(uint64(r.Intn(2)) * (0x01DA000000000000 + uint64(r.Intn(1<<30))))
+		}).eff("session"),
+		mk("config-workinghours", CmdConfig, true, func(r *simrt.Rand, s *Sent, p *PB) {
+			p.Int32(cfgWorkingHours).Int32(uint32(r.Intn(2)) * (1<<22 | uint32(r.Intn(1<<20))))
+		}).eff("session"),
+		// a key the Demon does not know: it answers [key][0]
+		mk("config-unknown", CmdConfig, true, func(r *simrt.Rand, s *Sent, p *PB) {
+			p.Int32(pick(r, 1, 2, 8, 100, 156)).Int32(0)
+		}),
+	)
+
+	// ---- COMMAND_SCREENSHOT ---------------------------------------------------------------
+	add(
+		mk("screenshot", CmdScreenshot, true, func(r *simrt.Rand, s *Sent, p *PB) {
+			p.Int32(1).Bytes(TinyBMP(byte(r.Intn(256)), byte(r.Intn(256)), byte(r.Intn(256))))
+		}).eff("loot"),
+		mk("screenshot-fail", CmdScreenshot, true, func(r *simrt.Rand, s *Sent, p *PB) { p.Int32(0) }),
+	)
+
+	// ---- COMMAND_NET ----------------------------------------------------------------------
+	add(
+		mk("net-domain", CmdNet, true, func(r *simrt.Rand, s *Sent, p *PB) {
+			if r.Intn(4) == 0 {
+				p.Int32(netDomain).Str("") // not joined to a domain
+			} else {
+				p.Int32(netDomain).Str(s.str(r, "corp.local"))
+			}
+		}),
+		mk("net-logons", CmdNet, true, func(r *simrt.Rand, s *Sent, p *PB) {
+			p.Int32(netLogons).WStr(s.wstr(r, "\\\\SRV"))
+			for i, n := 0, r.Intn(4); i < n; i++ {
+				p.WStr(s.wstr(r, "logon"))
+			}
+		}).list(),
+		mk("net-sessions", CmdNet, true, func(r *simrt.Rand, s *Sent, p *PB) {
+			p.Int32(netSessions).WStr(s.wstr(r, "\\\\SRV"))
+			for i, n := 0, r.Intn(4); i < n; i++ {
+				p.WStr(s.wstr(r, "\\\\client")).WStr(s.wstr(r, "sessuser")).Int32(s.small(r)).Int32(s.small(r))
+			}
+		}).list(),
+		mk("net-computer", CmdNet, true, func(r *simrt.Rand, s *Sent, p *PB) { p.Int32(netComputer) }),
+		mk("net-dclist", CmdNet, true, func(r *simrt.Rand, s *Sent, p *PB) { p.Int32(netDCList) }),
+		mk("net-share", CmdNet, true, func(r *simrt.Rand, s *Sent, p *PB) {
+			p.Int32(netShare).WStr(s.wstr(r, "\\\\SRV"))
+			for i, n := 0, r.Intn(4); i < n; i++ {
+				p.WStr(s.wstr(r, "share$")).WStr(s.wstr(r, "C:\\shares\\p")).WStr(s.wstr(r, "remark")).Int32(s.small(r))
+			}
+		}).list(),
+		mk("net-localgroup", CmdNet, true, func(r *simrt.Rand, s *Sent, p *PB) {
+			p.Int32(netLocalGroup).WStr(s.wstr(r, "\\\\SRV"))
+			for i, n := 0, r.Intn(4); i < n; i++ {
+				p.WStr(s.wstr(r, "lgroup")).WStr(s.wstr(r, "about"))
+			}
+		}).list(),
+		mk("net-group", CmdNet, true, func(r *simrt.Rand, s *Sent, p *PB) {
+			p.Int32(netGroup).WStr(s.wstr(r, "\\\\DC"))
+			for i, n := 0, r.Intn(4); i < n; i++ {
+				p.WStr(s.wstr(r, "group")).WStr(s.wstr(r, "about"))
+			}
+		}).list(),
+		mk("net-users", CmdNet, true, func(r *simrt.Rand, s *Sent, p *PB) {
+			p.Int32(netUsers).WStr(s.wstr(r, "\\\\SRV"))
+			for i, n := 0, r.Intn(4); i < n; i++ {
+				p.WStr(s.wstr(r, "user")).Int32(uint32(r.Intn(2)))
+			}
+		}).list(),
+	)
+
+	// ---- COMMAND_PIVOT: disconnect (of an agent id nobody has) ----------------------------
+	add(mk("pivot-disconnect", CmdPivot, true, func(r *simrt.Rand, s *Sent, p *PB) {
+		id := uint32(0x10000000 + r.Intn(0x6fffffff))
+		s.Ints = append(s.Ints, uint64(id))
+		p.Int32(PivotSMBDisconnect).Int32(uint32(r.Intn(2))).Int32(id)
+	}))
+
+	// ---- COMMAND_TRANSFER -----------------------------------------------------------------
+	add(mk("transfer-list", CmdTransfer, true, func(r *simrt.Rand, s *Sent, p *PB) {
+		p.Int32(xferList)
+		for i, n := 0, r.Intn(4); i < n; i++ {
+			// only downloads the teamserver knows are listed: nothing of these is shown
+			p.Int32(plainNum(r)).Int32(plainNum(r)).Int32(uint32(1 + r.Intn(3)))
+		}
+	}).list())
+	for _, x := range []struct {
+		n   string
+		sub uint32
+	}{{"transfer-stop", xferStop}, {"transfer-resume", xferResume}, {"transfer-remove", xferRemove}} {
+		sub := x.sub
+		add(mk(x.n, CmdTransfer, true, func(r *simrt.Rand, s *Sent, p *PB) {
+			p.Int32(sub).Int32(uint32(r.Intn(2))).Int32(s.num(r))
+		}))
+	}
+
+	// ---- COMMAND_SOCKET (no socket, forward or proxy client exists) -----------------------
+	add(
+		mk("socket-rportfwd-add", CmdSocket, true, func(r *simrt.Rand, s *Sent, p *PB) {
+			if r.Intn(2) == 0 {
+				p.Int32(SockRportfwdAdd).Int32(1).Int32(s.num(r)).Int32(ipv4(r)).Int32(s.small(r)).Int32(ipv4(r)).Int32(s.small(r))
+			} else { // could not bind: id 0, which is not shown
+				p.Int32(SockRportfwdAdd).Int32(0).Int32(0).Int32(ipv4(r)).Int32(s.small(r)).Int32(ipv4(r)).Int32(s.small(r))
+			}
+		}),
+		mk("socket-rportfwd-list", CmdSocket, true, func(r *simrt.Rand, s *Sent, p *PB) {
+			p.Int32(SockRportfwdList)
+			for i, n := 0, r.Intn(4); i < n; i++ {
+				p.Int32(s.num(r)).Int32(ipv4(r)).Int32(s.small(r)).Int32(ipv4(r)).Int32(s.small(r))
+			}
+		}).list(),
+		// SocketFree of the listening socket
+		mk("socket-rportfwd-remove", CmdSocket, true, func(r *simrt.Rand, s *Sent, p *PB) {
+			p.Int32(SockRportfwdRemove).Int32(s.num(r)).Int32(SockTypeRportfwd).Int32(ipv4(r)).Int32(s.small(r)).Int32(ipv4(r)).Int32(s.small(r))
+		}),
+		// SocketFree of an accepted client: nothing is shown
+		mk("socket-rportfwd-remove-client", CmdSocket, true, func(r *simrt.Rand, s *Sent, p *PB) {
+			p.Int32(SockRportfwdRemove).Int32(rnd32(r)).Int32(SockTypeClient).Int32(ipv4(r)).Int32(plainSmall(r)).Int32(ipv4(r)).Int32(plainSmall(r))
+		}),
+		mk("socket-rportfwd-clear", CmdSocket, true, func(r *simrt.Rand, s *Sent, p *PB) {
+			p.Int32(SockRportfwdClear).Int32(uint32(r.Intn(2)))
+		}),
+		mk("socket-open", CmdSocket, false, func(r *simrt.Rand, s *Sent, p *PB) {
+			p.Int32(SockOpen).Int32(rnd32(r)).Int32(ipv4(r)).Int32(plainSmall(r)).Int32(ipv4(r)).Int32(plainSmall(r))
+		}),
+		mk("socket-read-fail", CmdSocket, false, func(r *simrt.Rand, s *Sent, p *PB) {
+			p.Int32(SockRead).Int32(s.num(r)).Int32(pick(r, SockTypeProxy, SockTypeClient)).Int32(0).Int32(s.small(r))
+		}),
+		mk("socket-write-fail", CmdSocket, false, func(r *simrt.Rand, s *Sent, p *PB) {
+			p.Int32(SockWrite).Int32(s.num(r)).Int32(pick(r, 0, SockTypeProxy, SockTypeClient)).Int32(0).Int32(s.small(r))
+		}),
+		mk("socket-close", CmdSocket, false, func(r *simrt.Rand, s *Sent, p *PB) {
+			p.Int32(SockClose).Int32(rnd32(r)).Int32(SockTypeProxy)
+		}),
+		mk("socket-connect", CmdSocket, false, func(r *simrt.Rand, s *Sent, p *PB) {
+			if r.Intn(2) == 0 {
+				p.Int32(SockConnect).Int32(1).Int32(rnd32(r)).Int32(0)
+			} else {
+				p.Int32(SockConnect).Int32(0).Int32(rnd32(r)).Int32(pick(r, 10060, 10061, 10065))
+			}
+		}),
+	)
+
+	// ---- COMMAND_KERBEROS -----------------------------------------------------------------
+	add(
+		mk("kerberos-luid", CmdKerberos, true, func(r *simrt.Rand, s *Sent, p *PB) {
+			p.Int32(krbLuid).Int32(1).Int32(s.num(r)).Int32(s.num(r))
+		}),
+		mk("kerberos-luid-fail", CmdKerberos, true, func(r *simrt.Rand, s *Sent, p *PB) { p.Int32(krbLuid).Int32(0) }),
+		mk("kerberos-klist", CmdKerberos, true, func(r *simrt.Rand, s *Sent, p *PB) {
+			ns := r.Intn(3)
+			p.Int32(krbKlist).Int32(1).Int32(uint32(ns))
+			for i := 0; i < ns; i++ {
+				lo, hi := fileTime(r)
+				p.WStr(s.wstr(r, "kuser")).WStr(s.wstr(r, "KDOM"))
+				p.Int32(s.num(r)).Int32(s.num(r)).Int32(s.small(r)) // logon id low, high; session
+				p.WStr(s.wstr(r, "S-1-5-21")).Int32(lo).Int32(hi).Int32(pick(r, 2, 3, 4, 5, 7, 8, 9))
+				p.WStr(s.wstr(r, "Kerberos")).WStr(s.wstr(r, "DC")).WStr(s.wstr(r, "corp.local")).WStr(s.wstr(r, "upn@corp"))
+				nt := r.Intn(3)
+				p.Int32(uint32(nt))
+				for k := 0; k < nt; k++ {
+					p.WStr(s.wstr(r, "client")).WStr(s.wstr(r, "CREALM")).WStr(s.wstr(r, "krbtgt")).WStr(s.wstr(r, "SREALM"))
+					for t := 0; t < 3; t++ { // start, end, renew
+						lo, hi := fileTime(r)
+						p.Int32(lo).Int32(hi)
+					}
+					p.Int32(pick(r, 1, 3, 17, 18, 23, 24)).Int32(s.num(r)) // encryption type, flags (shown in hex)
+					p.Str(plainS(r, "ticket"))                             // shown base64-encoded
+				}
+			}
+		}).list(),
+		// Klist failed: [FALSE][0 sessions] is the whole (and last) answer
+		mk("kerberos-klist-fail", CmdKerberos, true, func(r *simrt.Rand, s *Sent, p *PB) { p.Int32(krbKlist).Int32(0).Int32(0) }),
+		mk("kerberos-purge", CmdKerberos, true, func(r *simrt.Rand, s *Sent, p *PB) { p.Int32(krbPurge).Int32(uint32(r.Intn(2))) }),
+		mk("kerberos-ptt", CmdKerberos, true, func(r *simrt.Rand, s *Sent, p *PB) { p.Int32(krbPtt).Int32(uint32(r.Intn(2))) }),
+	)
+
+	// ---- COMMAND_MEM_FILE, COMMAND_PACKAGE_DROPPED -------------------------------------------
+	add(
+		mk("mem-file", CmdMemFile, true, func(r *simrt.Rand, s *Sent, p *PB) {
+			p.Int32(rnd32(r)).Int32(uint32(r.Intn(2)))
+		}).silent(),
+		mk("package-dropped", CmdPackageDropped, false, func(r *simrt.Rand, s *Sent, p *PB) {
+			p.Int32(0x1e00000 + uint32(r.Intn(1<<20))).Int32(0x1e00000)
+		}),
+	)
+
+	// ---- COMMAND_INLINEEXECUTE (CoffeeLdr.c) ---------------------------------------------------
+	add(
+		// the handler resumes the loader: RAN_OK / COULD_NOT_RUN still follows
+		mk("bof-exception", CmdInlineExecute, false, func(r *simrt.Rand, s *Sent, p *PB) {
+			p.Int32(bofException).Int32(s.num(r)).Int64(s.ptr(r))
+		}),
+		mk("bof-symbol-not-found", CmdInlineExecute, false, func(r *simrt.Rand, s *Sent, p *PB) {
+			p.Int32(bofSymbolNotFound).Str(s.str(r, "__imp_KERNEL32$Fn"))
+		}),
+		mk("bof-ran-ok", CmdInlineExecute, true, func(r *simrt.Rand, s *Sent, p *PB) { p.Int32(bofRanOK) }),
+		mk("bof-could-not-run", CmdInlineExecute, true, func(r *simrt.Rand, s *Sent, p *PB) { p.Int32(bofCouldNotRun) }),
+		mk("bof-output", CmdInlineExecute, false, func(r *simrt.Rand, s *Sent, p *PB) { p.Int32(cbOutput).Str(s.str(r, "bofout")) }),
+		mk("bof-error", CmdInlineExecute, false, func(r *simrt.Rand, s *Sent, p *PB) { p.Int32(cbError).Str(s.str(r, "boferr")) }),
+	)
+
+	// ---- COMMAND_ASSEMBLY_INLINE_EXECUTE, COMMAND_ASSEMBLY_LIST_VERSIONS (Dotnet.c) ------------
+	add(
+		mk("dotnet-patched", CmdAssemblyInline, false, func(r *simrt.Rand, s *Sent, p *PB) { p.Int32(dotnetPatched) }),
+		mk("dotnet-net-version", CmdAssemblyInline, false, func(r *simrt.Rand, s *Sent, p *PB) {
+			p.Int32(dotnetNetVersion).WStr(s.wstr(r, "v4.0.30319"))
+		}),
+		mk("dotnet-entrypoint", CmdAssemblyInline, false, func(r *simrt.Rand, s *Sent, p *PB) {
+			p.Int32(dotnetEntrypoint).Int32(s.small(r))
+		}),
+		mk("dotnet-finished", CmdAssemblyInline, true, func(r *simrt.Rand, s *Sent, p *PB) { p.Int32(dotnetFinished) }),
+		mk("dotnet-failed", CmdAssemblyInline, true, func(r *simrt.Rand, s *Sent, p *PB) { p.Int32(dotnetFailed) }),
+		mk("dotnet-list-versions", CmdAssemblyVersions, true, func(r *simrt.Rand, s *Sent, p *PB) {
+			for i, n := 0, r.Intn(4); i < n; i++ {
+				p.WStr(s.wstr(r, "v4.0"))
+			}
+		}).list(),
+	)
+
+	// ---- COMMAND_INJECT_SHELLCODE, COMMAND_SPAWNDLL ----------------------------------------------
+	add(
+		mk("inject-shellcode", CmdInjectShellcode, true, func(r *simrt.Rand, s *Sent, p *PB) { p.Int32(uint32(r.Intn(4))) }),
+		mk("spawn-dll", CmdSpawnDLL, true, func(r *simrt.Rand, s *Sent, p *PB) { p.Int32(uint32(r.Intn(4))) }),
+	)
+
+	// ---- COMMAND_ERROR token variant; DEMON_INFO; BEACON_OUTPUT variants ---------------------------
+	add(
+		// "token impersonate" of an id that is not in the vault: the regular answer still follows
+		mk("error-token", CmdError, false, func(r *simrt.Rand, s *Sent, p *PB) { p.Int32(errToken).Int32(1) }),
+		mk("info-mem-exec", CmdInfo, false, func(r *simrt.Rand, s *Sent, p *PB) {
+			p.Int32(infoMemExec).Int64(s.ptr(r)).Int32(s.small(r))
+		}),
+		mk("info-mem-protect", CmdInfo, false, func(r *simrt.Rand, s *Sent, p *PB) {
+			p.Int32(infoMemProtect).Int64(s.ptr(r)).Int32(s.small(r)).Int32(pick(r, 0x04, 0x20, 0x40)).Int32(pick(r, 0x02, 0x20, 0x40))
+		}),
+		// Win32.c ProcessCreate with Implant.Verbose: path and pid of the started process
+		mk("info-proc-create", CmdInfo, false, func(r *simrt.Rand, s *Sent, p *PB) {
+			p.Int32(infoProcCreate).WStr(s.wstr(r, "C:\\Windows\\started")).Int32(s.small(r))
+		}),
+		mk("beacon-output-oem", CmdBeaconOutput, false, func(r *simrt.Rand, s *Sent, p *PB) {
+			p.Int32(cbOutputOEM).WStr(s.wstr(r, "oem"))
+		}),
+		mk("beacon-output-error", CmdBeaconOutput, false, func(r *simrt.Rand, s *Sent, p *PB) {
+			p.Int32(cbError).Str(s.str(r, "boferr"))
+		}),
+		mk("beacon-output-utf8", CmdBeaconOutput, false, func(r *simrt.Rand, s *Sent, p *PB) {
+			p.Int32(cbOutputUTF8).Str(s.wname(r, "utf8"))
+		}),
+		// BOF downloads: [type][bytes: file id, (length,) data]
+		mk("beacon-file-open", CmdBeaconOutput, false, func(r *simrt.Rand, s *Sent, p *PB) {
+			var d PB
+			d.Int32(rnd32(r)).Int32(s.small(r)).Raw([]byte(s.str(r, "C:\\bof\\dl")))
+			p.Int32(cbFile).Bytes(d.B)
+		}).eff("loot"),
+		mk("beacon-file-write", CmdBeaconOutput, false, func(r *simrt.Rand, s *Sent, p *PB) {
+			var d PB
+			d.Int32(s.num(r)).Raw([]byte(plainS(r, "chunk"))) // unknown file id: reported in hex
+			p.Int32(cbFileWrite).Bytes(d.B)
+		}).eff("loot"),
+		mk("beacon-file-close", CmdBeaconOutput, false, func(r *simrt.Rand, s *Sent, p *PB) {
+			var d PB
+			d.Int32(rnd32(r))
+			p.Int32(cbFileClose).Bytes(d.B)
+		}).eff("loot").silent(),
+	)
+	return l
 }
 
 // CallbackByName finds a catalogue entry.
